@@ -2,7 +2,7 @@
 (* C02, implementation -> specification: the fault sweep.  For one workload transaction the harness
    records `begin`, then one `receipt` per injection point n in increasing order (n = 0: no injection):
      [class, touched <<classes>>, events <<<<name, emitter>>>>, royalties, n]
-   Every receipt must satisfy the specification's ReceiptOk; and because execution is deterministic up to
+   For the force-write workload an `attempt` precedes the receipt.  Every receipt must satisfy the specification's ReceiptOk; and because execution is deterministic up to
    the injection point and the loan stays repaid once it is, a rejection can never follow a committed
    failure when the injection point moves later.                                                    *)
 EXTENDS TxFailureRel, TraceIO
@@ -16,6 +16,8 @@ TReceipt == /\ Ev.a = "receipt"
             /\ ReceiptOk(Proj(Ev))
             /\ (Ev.n > 0 /\ Ev.class = "Reject") => ~seenCommit
             /\ seenCommit' = (seenCommit \/ (Ev.n > 0 /\ Ev.class = "CommitFailure"))
-TNext == l <= Len(Rec) /\ (TBegin \/ TReceipt) /\ l' = l + 1
+\* an attempt of the native test blueprint to obtain the privilege (recorded before the receipt of its transaction)
+TAttempt == Ev.a = "attempt" /\ PrivilegedOpenOk(Ev) /\ UNCHANGED seenCommit
+TNext == l <= Len(Rec) /\ (TBegin \/ TAttempt \/ TReceipt) /\ l' = l + 1
 TSpec == TInit /\ [][TNext]_<<l, seenCommit>>
 =============================================================================
